@@ -8,7 +8,8 @@ PID = "C11"
 RULE = ("inputs: (i) random Unicode strings <= 64 chars biased to the lexer's character classes (digits, .eE+-, operators, brackets, "
         "braces, °', multi-byte letters, every kind of Unicode whitespace); (ii) token soups <= 40 tokens from the real vocabulary (numbers "
         "with exponents <= 3 digits, unit words, fact words, function names, `to`, punctuation); (iii) mutations (delete/duplicate/swap/"
-        "splice) of every query in tests/ and the README. Bounds as the property states: a token after ^ or ** (and the digits argument of "
+        "splice) of every query in tests/ and the README; (iv) mostly well-formed structured queries (quantities, functions incl. round(x,n), facts, "
+        "powers, casts), 40% of them mutated. Bounds as the property states: a token after ^ or ** (and the digits argument of "
         "round) is an integer literal of <= 2 digits and the product of all power magnitudes in one input is <= 100. Each input is run "
         "through parse+query in the debug-assertion and the release build; refuted by: a panic, abort or signal, no result sequence, an "
         "error whose range is not start<=end<=len on char boundaries or that codespan-reporting cannot render, a value that cannot be "
@@ -115,6 +116,47 @@ def mutate(rng, s):
             toks[i] = rng.choice(PUNCT + FUNCS + ["0", "1e3", "kg", " "])
     return "".join(toks)
 
+def gen_structured(rng, vocab):
+    """Mostly well-formed queries so that the evaluator (not only the error paths of the parser) is exercised."""
+    from core import exact
+    def num():
+        return gen_number(rng)
+    def qty():
+        u = rng.choice(vocab["units"])
+        if rng.random() < 0.4:
+            u += rng.choice(["*", "/", " "]) + rng.choice(vocab["units"])
+        if rng.random() < 0.3:
+            u += "^%d" % rng.choice([-3, -2, -1, 2, 3, 0, 12])
+        return "%s %s" % (num(), u)
+    def atom():
+        r = rng.random()
+        if r < 0.25:
+            return num()
+        if r < 0.55:
+            return qty()
+        if r < 0.65:
+            return " ".join(rng.sample(vocab["facts"], rng.randint(1, 3)))
+        if r < 0.9:
+            f = rng.choice(FUNCS)
+            if f == "round" and rng.random() < 0.7:
+                return "round(%s %s %s, %d)" % (num(), rng.choice("/*+-"), num(), rng.randint(-20, 20))
+            args = ", ".join(rng.choice([num, qty])() for _ in range(rng.choice([0, 1, 1, 1, 2, 3])))
+            return "%s(%s)" % (f, args)
+        return "(" + atom() + " " + rng.choice(["+", "-", "*", "/"]) + " " + atom() + ")"
+    parts = [atom()]
+    for _ in range(rng.randint(0, 4)):
+        op = rng.choice(["+", "-", "*", "/", "^", "to", "*", "/"])
+        if op == "^":
+            parts += ["^", str(rng.randint(-9, 9))]
+        elif op == "to":
+            parts += ["to", rng.choice(vocab["units"])]
+        else:
+            parts += [op, atom()]
+    s = " ".join(parts)
+    if rng.random() < 0.4:
+        s = mutate(rng, s)
+    return s
+
 def corpus():
     out = set()
     for p in glob.glob("/repo/tests/**/*.rs", recursive=True) + ["/repo/README.md", "/repo/src/lib.rs"]:
@@ -174,10 +216,12 @@ def shard(p):
     inputs = []
     for _ in range(p["n"]):
         r = rng.random()
-        if r < 0.3:
+        if r < 0.25:
             inputs.append(("unicode", gen_unicode(rng)))
-        elif r < 0.75:
+        elif r < 0.5:
             inputs.append(("soup", gen_soup(rng, vocab)))
+        elif r < 0.8:
+            inputs.append(("structured", gen_structured(rng, vocab)))
         else:
             inputs.append(("mutation", mutate(rng, rng.choice(p["corpus"]))))
     inputs = [(f, bound_powers(s)) for f, s in inputs]
